@@ -18,6 +18,7 @@ def run(e, R, tier):
         S.r_sem_life,
         S.r_ctx_factory,
         T.r_rt_loop,
+        T.r_rt_sweep,
         T.r_rt_table,
         T.r_rt_proto,
     ])
